@@ -108,6 +108,8 @@ def run(ctx, tier, res, tag=''):
         else:
             res.violation('%s:payload-accessor%s' % (fmt, tag), '%s: returns %r, expected the address %d octets after the header start'
                           % (FC.fnloc(ctx, fname), ret, f['header_len']))
+    from .. import promises
+    promises.report(ctx, res, FC.accessor_functions(ctx, 'all') + [fn for (_, fn) in c04.init_tasks(ctx)], promises.MEMORY_KINDS, tag)
     res.rule = ('per function: read and write sets measured by the bit-provenance engine on a PDU region declared exactly '
                 'header_len octets long must stay inside it; per format: sizeof, header array bound, offsetof(payload) and '
                 'the length macro, as folded by the compiler, must equal the wire-format header length - the macro also when it is '
